@@ -2,6 +2,7 @@
 Model kind T: lean/EaselModel/Generated/Dist.lean is regenerated from the working tree by translate/c2lean.py on every
 run; theorems (Props/C10.lean) are about those generated definitions at the `ℝ` instance; the `Float` instance of the
 same definitions is executed (Driver/C10.lean) against the C functions (harness/h_dist.c) bit-for-bit.
+Round 4: 110 functions translated (every pdf/cdf/surv/log*/inv*/generic_*/Sample of the ten files except esl_gam_Sample, hand-modelled).
 Round 3: 106 functions translated — the mixtures (esl_hxp_*, esl_mixgev_*, esl_vec_DMax/DMin/DLogSum: counted loops as folds,
 parameter structures), the four bracketing + bisection inverses (do-while loops recursing on fuel) and the generic-API wrappers.
 L0 support (NOT a theorem): props/c10_ref.py, mpmath at 50 digits, run as property monitors."""
@@ -76,6 +77,9 @@ class C10(Prop):
     lean_modules = ["EaselModel.Props.C10"]
     lean_exe = "c10_driver"
     harness = "h_dist.c"
+    # the library's calls to the primitive draws are routed through the harness (forced variates for `sampleof`, `mixsampleof`,
+    # `gamsample`; pass-through otherwise)
+    harness_flags = ["-Wl,--wrap=esl_rnd_UniformPositive", "-Wl,--wrap=esl_rnd_Gamma", "-Wl,--wrap=esl_rnd_Gaussian", "-Wl,--wrap=esl_rnd_DChoose"]
     theorems = ["EaselModel.Props.C10." + t for t in (
         "exp_cdf_monotone_0_to_1", "exp_textbook_laws", "exp_code_eq_textbook", "exp_code_cdf_add_surv", "exp_code_logs",
         "exp_outside_support", "sample_is_inverse_of_deviate",
@@ -84,7 +88,9 @@ class C10(Prop):
         "gev_textbook_laws", "gev_code_eq_textbook", "gev_code_logsurv", "gev_gumbel_branch_partial", "gev_outside_support",
         "gam_laws_partial", "sxp_laws_partial", "normal_laws", "hxp_mixture_laws", "mixgev_mixture_laws", "vec_extremes", "gam_sxp_outside_support", "pdf_integrates_to_cdf_differences",
         "gev_gumbel_branch_distance", "bisection_inverses_generated", "bisection_inverses_bracket", "bisection_inverses_accuracy",
-        "bisection_inverses_terminate", "bisection_inverses_hang_above_sup", "mixture_log_versions_partial", "incomplete_gamma_structure", "generic_api_forwards", "lognormal_laws", "gam_sxp_closed_forms")]
+        "bisection_inverses_terminate", "bisection_inverses_real_reading_hangs_above_sup", "bisection_bracket_returns_at_infinity", "mixture_log_versions_partial", "incomplete_gamma_structure", "generic_api_forwards", "lognormal_laws", "gam_sxp_closed_forms",
+        "gam_sxp_textbook_laws", "gam_sxp_code_vs_textbook", "gam_sxp_code_close", "mixture_full_laws",
+        "mixture_sample_is_component_inverse", "transformed_samples")]
     claimed = True
     technique = ("Lean 4 proof about the C functions translated from the working tree on every run (clang-14 AST -> Lean, polymorphic "
                  "over a numeric class): real-analysis theorems at the R instance, the same definitions executed at Float bit-for-bit "
@@ -309,6 +315,24 @@ class C10(Prop):
             k = rng.choice([1, 3, 8])
             ops.append("unipos seed=%d k=%d" % (seed, k))
             ops.append("sample fn=%sSample seed=%d k=%d a=%s" % (pre, seed, k, ",".join(dhex(v) for v in par)))
+        # the TRANSLATED sampler on a forced primitive variate (every family; the harness intercepts the library's draw)
+        if samples and fam in ("exp", "gumbel", "gev", "wei"):
+            for u in rng.sample(P_GRID, 3) + [rng.random(), 1 - 2.0 ** -32, 2.0 ** -32]:      # the ends of esl_rnd_UniformPositive's range
+                ops.append("sampleof fn=%sSample u=%s a=%s" % (pre, dhex(u), ",".join(dhex(v) for v in par)))
+        if samples and fam == "sxp":
+            for t in [self.logu(rng, 1e-8, 60.0), rng.gammavariate(1.0 / par[2], 1.0), rng.choice([1e-300, 1.0, 1e-30, 700.0])]:
+                if t > 0.0:
+                    ops.append("sampleof fn=esl_sxp_Sample u=%s a=%s" % (dhex(t), ",".join(dhex(v) for v in par)))
+        if samples and fam == "lognormal":
+            for g in [rng.gauss(0, 1), rng.uniform(-8, 8), rng.choice([0.0, -38.0, 38.0, 1e-300])]:
+                ops.append("sampleof fn=esl_lognormal_Sample u=%s a=%s" % (dhex(g), ",".join(dhex(v) for v in par)))
+        if samples and fam == "gam":
+            # the redraw loop: variates whose mu + t/lambda rounds back to mu are drawn again
+            tiny = abs(par[0]) * par[1] * 2.0 ** -55
+            streams = [[rng.gammavariate(par[2], 1.0)], [0.0, 0.0, rng.gammavariate(par[2], 1.0)], [tiny, tiny * 0.5, 0.0, self.logu(rng, 1e-3, 30.0)],
+                       [tiny * 3.9, tiny * 4.1, 1.0], [1e-320, 2.5]]
+            for ts in streams:
+                ops.append("gamsample fn=esl_gam_Sample t=%s a=%s" % (",".join(dhex(t) for t in ts), ",".join(dhex(v) for v in par)))
         return {"name": name, "ops": ops, "sticky": 0}
 
     @staticmethod
@@ -373,6 +397,9 @@ class C10(Prop):
                 ops.append("mix fam=%s fn=%s x=%s %s" % (fam, w, dhex(x), args))
         ops.append("mix fam=%s fn=generic_invcdf x=%s %s" % (fam, dhex(rng.choice([0.5, 0.1, 0.9])), args))
         ops.append("mixsample fam=%s seed=%d k=%d %s" % (fam, rng.choice([1, 42, rng.randrange(1, 2 ** 32)]), rng.choice([1, 4, 9]), args))
+        for k in sorted(set([0, K - 1, rng.randrange(K)])):      # the TRANSLATED esl_hxp_Sample / esl_mixgev_Sample: component k forced, deviate forced
+            for u in (rng.random(), rng.choice(P_GRID)):
+                ops.append("mixsampleof fam=%s k=%d u=%s %s" % (fam, k, dhex(u), args))
         if True:
             for p in (0.5, rng.random(), rng.choice([1e-6, 1e-3, 0.01, 0.1, 0.9, 0.99, 0.9999])):
                 ops.append("mix fam=%s fn=invcdf x=%s %s" % (fam, dhex(p), args))
@@ -479,6 +506,13 @@ class C10(Prop):
         # repaired in 55bbf88 (was a known finding): p above the largest cdf value -> the right bracketing loop never ended
         out.append({"name": "fixed-invcdf-p-above-cdf-max",
                     "ops": [_mixop("hxp", "invcdf", 1.0, mu=[0.0], q=[0.1, 0.2, 0.7 - 1e-16], l=[1.0, 2.0, 3.0])]})
+        # (|mu| < 2^53, far beyond the property's location range +-10^3: from 2^53 on mu + 1. == mu, the bracket has width 0 and
+        #  never moves - (R) fails there, and the C loop indeed never ends for any p > 0)
+        # carrier facts (R), (A) of bisection_bracket_returns_at_infinity at binary64 (Float #eval of BisectCarrier.reachInf
+        # against the C loop), and its conclusion: esl_hxp_invcdf(1.0) with sum q < 1 returns +inf
+        out.append({"name": "bracketlim-binary64", "ops": ["bracketlim mu=%s q=%s" % (dhex(m), dhex(q)) for m in sorted(set(MU_GRID)) + [2.0 ** 52, -2.0 ** 52, 1e-300, -1e-300]
+                                                           for q in (0.5, 1 - 2.0 ** -53)] +
+                    ["bracketlim mu=%s q=%s" % (dhex(rng.choice([-1, 1]) * self.logu(rng, 1e-6, 1e6)), dhex(rng.uniform(0.01, 0.99))) for _ in range(8)]})
         out.append({"name": "fixed-gev-log1p", "ops": [op_f("esl_gev_" + w, [x, 0.0, 1.0, al]) for al in (1e-12, -1e-12, 1.5e-12, 1e-10)
                                                        for x in (-1.0, 1.0, -10.0, nextafter(-10.0, 1)) for w in ("cdf", "logcdf", "surv", "pdf")] +
                     [op_f("esl_gev_invcdf", [p, 0.0, 1.0, al]) for al in (2e-12, -2e-12, 1e-10) for p in (0.5, 0.01, 0.99)]})
@@ -543,6 +577,56 @@ class C10(Prop):
             res = parse_out(line)
             if res is None:
                 return Failure("monitor", "operation %r answered %r" % (op, line))
+            if kind == "gamsample":
+                mu_, lam_ = a[0], a[1]
+                want = None
+                for t in [unhex(v) for v in kv["t"].split(",")]:
+                    xv = mu_ + t / lam_               # binary64, as the C statement
+                    if xv != mu_:
+                        want = xv
+                        break
+                if want is None or res[0] != want or res[0] == mu_:
+                    return Failure("monitor", "esl_gam_Sample on the Gamma variates %r returned %r; the first mu + t/lambda != mu is %r; %s" % (
+                        [unhex(v) for v in kv["t"].split(",")], res[0], want, op))
+                continue
+            if kind == "sampleof":
+                fam, _ = R.split_fn(kv["fn"])
+                u, sx = unhex(kv["u"]), res[0]
+                if fam in ("exp", "gumbel", "gev", "wei"):
+                    which = "invsurv" if fam == "exp" else "invcdf"      # esl_exp_Sample: mu - log(u)/lambda
+                    band = R.reference_all(fam, "p", [u] + a)[which]
+                    why = R.judge(sx, band, RELTOL[fam], RELTOL[fam] * abs(float(band[0]) - a[0]) if R.mpmath.isfinite(band[0]) else 0.0)
+                    if why:
+                        return Failure("monitor", "%s with deviate %r returned %r, %s of the deviate is %s: %s" % (kv["fn"], u, sx, which, R.mpmath.nstr(band[0], 17), why))
+                elif fam == "sxp":
+                    ref = R.mpmath.mpf(a[0]) + R.mpmath.mpf(u) ** (1 / R.mpmath.mpf(a[2])) / R.mpmath.mpf(a[1])
+                    if not (abs(sx - ref) <= 1e-12 * abs(ref - a[0]) + 4 * 2.0 ** -52 * abs(a[0]) + 5e-324):
+                        return Failure("monitor", "esl_sxp_Sample with Gamma variate %r returned %r, mu + t^(1/tau)/lambda = %s; %s" % (u, sx, R.mpmath.nstr(ref, 17), op))
+                elif fam == "lognormal":
+                    arg = R.mpmath.mpf(a[0]) + R.mpmath.mpf(a[1]) * R.mpmath.mpf(u)
+                    ref = R.mpmath.exp(arg)
+                    if not ((sx == math.inf and arg > 709.7) or abs(sx - ref) <= 4e-16 * (2 + abs(float(arg))) * ref + 5e-324):
+                        return Failure("monitor", "esl_lognormal_Sample with Gaussian variate %r returned %r, exp(mu + sigma g) = %s; %s" % (u, sx, R.mpmath.nstr(ref, 17), op))
+                continue
+            if kind == "mixsampleof":
+                L = lambda k: [unhex(t) for t in kv[k].split(",")]
+                k_, u, sx = int(kv["k"]), unhex(kv["u"]), res[0]
+                if kv["fam"] == "hxp":
+                    cf, which, cp = "exp", "invsurv", [unhex(kv["mu"]), L("l")[k_]]
+                else:
+                    cf, which, cp = "gev", "invcdf", [L("mu")[k_], L("l")[k_], L("al")[k_]]
+                band = R.reference_all(cf, "p", [u] + cp)[which]
+                why = R.judge(sx, band, RELTOL[cf], RELTOL[cf] * abs(float(band[0]) - cp[0]) if R.mpmath.isfinite(band[0]) else 0.0)
+                if why:
+                    return Failure("monitor", "%s sampler, component %d, deviate %r returned %r; %s of the deviate under that component is %s: %s; %s" % (
+                        kv["fam"], k_, u, sx, which, R.mpmath.nstr(band[0], 17), why, op))
+                continue
+            if kind == "bracketlim":
+                k, x2, absorb, r = res
+                if not (0 <= k <= 700 and x2 == math.inf and absorb == 1.0 and r == math.inf):
+                    return Failure("monitor", "binary64 carrier facts of bisection_bracket_returns_at_infinity fail: passes %r, point reached %r, "
+                                   "x2 <= (mu+x2)/2: %r, esl_hxp_invcdf(1.0) = %r; %s" % (k, x2, absorb, r, op))
+                continue
             if kind == "vec":
                 v = [unhex(t) for t in kv["v"].split(",")]
                 r = res[0]
@@ -611,7 +695,10 @@ class C10(Prop):
                     continue
                 fx = R.FAMILY[fam]
                 if which == "invcdf" and fam in ("sxp", "gam") and a[0] == 0.0:
-                    if not (a[1] <= res[0] <= nextafter(a[1], 4) or (a[1] == 0.0 and 0.0 <= res[0] <= 1e-300)):
+                    # p = 0: the bisection converges onto mu by its no-progress break, or stops earlier at a point where the
+                    # binary64 cdf is exactly 0 = p (the intermediate (lambda (x-mu))^tau underflows: sxp forms it, the series of P starts with it)
+                    if not (a[1] <= res[0] <= nextafter(a[1], 4) or (a[1] == 0.0 and 0.0 <= res[0] <= 1e-300)
+                            or (res[0] > a[1] and R.mpmath.mpf((res[0] - a[1]) * a[2]) ** R.mpmath.mpf(a[3]) < 1e-300)):
                         return Failure("monitor", "%s(0; %r) = %r, the support edge is %r" % (kv["fn"], a[1:], res[0], a[1]))
                     continue
                 if which == "invcdf" and fam in ("sxp", "gam"):       # bisection to 1e-6
@@ -763,8 +850,12 @@ class C10(Prop):
                 "translated_partial_functions_with_fuel": getattr(self, "tinfo", {}).get("partial", []),
                 "translated_structs": getattr(self, "tinfo", {}).get("structs", {}),
                 "hand_modelled_functions": ["esl_stats_LogGamma", "esl_stats_IncompleteGamma", "esl_stats_erfc (coefficients dumped from source)",
-                                            "esl_rnd_DChoose + the two draws of esl_hxp_Sample / esl_mixgev_Sample"],
-                "not_covered": ["esl_sxp_Sample, esl_gam_Sample, esl_lognormal_Sample (esl_rnd_Gamma / esl_rnd_Gaussian not modelled; Kolmogorov-Smirnov monitor)",
+                                            "esl_rnd_DChoose (Mix.dchoose; the samplers esl_hxp_Sample / esl_mixgev_Sample themselves are translated)",
+                                            "esl_gam_Sample (redraw loop over the stream of Gamma variates: Mix.gamSample)"],
+                "primitive_variate_of_translated_samplers": getattr(self, "tinfo", {}).get("rng_prim", {}),
+                "not_covered": ["esl_rnd_Gamma / esl_rnd_Gaussian themselves (C09/C11 territory): the samplers built on them are translated as functions "
+                                "of the variate and run against the C code on forced variates (ld --wrap); on the real generator a Kolmogorov-Smirnov monitor",
+                                "esl_*_Plot (output formatting), esl_hyperexp_* / esl_mixgev_* constructors and I/O, esl_*_Fit* (C11)",
                                 "esl_stats_Psi / Trigamma / DMean / ChiSquaredTest (status + out-parameter functions, used by the fitting code, C11)"],
                 "literals_from_source_text": getattr(self, "tinfo", {}).get("literals", []),
                 "hand_model_ops_equal_within_tolerance_but_not_bitwise": getattr(self, "hdrift", [0])[0],
